@@ -288,6 +288,18 @@ func (fr *Frame) callValue(st *State, fv *Val, args []*Val, pos token.Pos, sig *
 		x.vc.diag("%s: context.CancelFunc value called: assumed to write no program memory", fr.fn.String())
 		return nil
 	}
+	if len(args) == 1 {
+		if cl, ok := args[0].X.(*Closure); ok && cl.fn.Synthetic == "range-over-func yield" {
+			// `for ... := range it`: the iterator value `it` is unknown code.
+			// Assumed (listed): an iterator invokes the loop body sequentially,
+			// stops for good when the body returns false (break / return), and
+			// writes no caller-visible memory itself. The body is then a loop
+			// body: `callback N invariant` clauses are its invariants.
+			x.vc.diag("%s: range over an iterator function: body executed as a loop (iterator assumed well-behaved and effect-free)", fr.fn.String())
+			fr.callbackLoop(st, cl, "yield", fr.specEnv(st), pos, "loop")
+			return nil
+		}
+	}
 	x.vc.diag("%s: call through unknown function value at %s: havoc", fr.fn.String(), x.w.fset.Position(pos))
 	// an unknown closure may write anything it captured
 	x.havocAllHeaps(st)
@@ -879,10 +891,24 @@ func resultNames(sig *types.Signature, c *FuncContract) []string {
 func (fr *Frame) callbackLoop(st *State, cl *Closure, pname string, env *SpecEnv, pos token.Pos, mode string) {
 	x := fr.x
 	ord := x.w.funcLitOrdinal(cl.fn)
+	invKey := -ord
+	label := fmt.Sprintf("callback %d", ord)
+	if cl.fn.Synthetic == "range-over-func yield" && cl.fn.Parent() != nil {
+		// the body of a range-over-func statement: its invariants are the
+		// `loop N invariant` clauses of that statement (N counted among the
+		// loops of the enclosing function, like every other loop)
+		for i, ls := range x.w.loopStmts(cl.fn.Parent()) {
+			if ls == cl.fn.Syntax() {
+				invKey = i + 1
+				ord = 1000 + i + 1
+				label = fmt.Sprintf("loop %d", i+1)
+			}
+		}
+	}
 	var invs []*Clause
 	if top := x.top; top != nil {
 		if oc := x.w.contractFor(top.outermost()); oc != nil {
-			invs = oc.Inv[-ord]
+			invs = oc.Inv[invKey]
 		}
 	}
 	csig := cl.fn.Signature
@@ -901,7 +927,6 @@ func (fr *Frame) callbackLoop(st *State, cl *Closure, pname string, env *SpecEnv
 	}
 	x.cbs[ord] = ci
 	ci.count = "0"
-	label := fmt.Sprintf("callback %d", ord)
 	pre := st.clone()
 	polarity := 0
 	evalInv := func(s *State, n string, c *Clause) string {
@@ -961,6 +986,17 @@ func (fr *Frame) callbackLoop(st *State, cl *Closure, pname string, env *SpecEnv
 		x.vc.assume(tImp(st.pc, evalInv(st, n, c)))
 	}
 	polarity = 0
+	if cl.fn.Synthetic == "range-over-func yield" {
+		// go/ssa's yield-state variable: READY whenever a well-behaved iterator
+		// calls the body
+		for i, fv := range cl.fn.FreeVars {
+			if strings.HasPrefix(fv.Name(), "jump$") && i < len(cl.bindings) {
+				if pp := x.ptrOf(cl.bindings[i]); pp != nil && pp.Base == pbCell {
+					st.cells[pp.Cell] = mkInt(types.Typ[types.Int], "0")
+				}
+			}
+		}
+	}
 	after := st.clone() // iteration over, no invocation failed
 	// one more invocation
 	var cargs []*Val
@@ -976,16 +1012,23 @@ func (fr *Frame) callbackLoop(st *State, cl *Closure, pname string, env *SpecEnv
 	// facts the contract author assumes about every argument tuple (listed)
 	if top := x.top; top != nil {
 		if oc := x.w.contractFor(top.outermost()); oc != nil {
-			for _, c := range oc.Inv[-ord-1000] {
+			for _, c := range oc.Inv[invKey-1000] {
 				x.vc.assume(tImp(st.pc, evalInv(st, n, c)))
 			}
 		}
 	}
 	vals := fr.inlineCall(st, cl.fn, cl.bindings, cargs, pos)
 	errT := "0"
+	boolResult := false
 	if len(vals) > 0 {
 		errT = vals[len(vals)-1].L[0]
+		if bt, ok := under(vals[len(vals)-1].Ty).(*types.Basic); ok && bt.Kind() == types.Bool {
+			// a yield function: true = go on, false = stop
+			boolResult = true
+			errT = tIte(vals[len(vals)-1].T(), "0", "1")
+		}
 	}
+	_ = boolResult
 	x.vc.pcNow = st.pc
 	if mode == "retry" {
 		for _, c := range invs {
